@@ -405,10 +405,10 @@ theorem merge_congr_patch : ∀ (p p' t : Value), noDup t = true → noDup p = t
 
 /-! ### equations for the top of `CreateMergePatch` -/
 
-/-- the map a root value is read as: an object normalised, `null` as the empty map -/
+/-- the map a root value is read as: an object, normalised; everything else (`null` included:
+it decodes to a nil map) is rejected -/
 def rootM : Value → Option Members
   | .obj ms => some (anyOfM ms [])
-  | .null => some []
   | _ => none
 
 theorem createObject_eq (a b : Cst) :
@@ -430,9 +430,6 @@ theorem GVM_rootM (d : Nat) (v : Value) (ms : Members) (h : GV d v = true) (hr :
     have := GV_anyOf (.obj A) d h
     simp only [anyOf] at this
     exact ((GV_obj d _).1 this).2
-  | null =>
-    simp only [rootM, Option.some.injEq] at hr
-    subst hr; rfl
   | _ => simp [rootM] at hr
 
 /-- the value `createObject` returns survives the text round trip -/
